@@ -131,7 +131,13 @@ theorem pat_fails : ∀ k,
     constructor
     · intro p v s
       cases p with
-      | b x h => simp only [patM]; exact setOpt_fails s x v
+      | b x h =>
+        simp only [patM]
+        split
+        · exact setOpt_fails s x v
+        · split
+          · exact setOpt_fails s x v
+          · rfl
       | lit n => simp [patM]
       | tup ps =>
         simp only [patM]
